@@ -34,6 +34,12 @@ struct Outer { u16 k; Gr inner; };
 struct By { bytes a[3]; bytes b<>; bytes c<5>; u8 n; bytes d<@n>; bytes e<...>; };
 struct Fl { float f; double d; float fs<>; };
 struct Deep { AfterDyn a; Blocks b<>; Un c; EndOpt d; u8 e; };
+struct DynUnl { u32 n; u8 a<@n>; Gr g; };
+struct WrapUnl { u16 k; DynUnl s; };
+struct DynUnl2 { u16 a<>; u8 t; GrS g; };
+struct Tail { u8 x<>; u16 y; };
+struct TailComp { u16 x<>; u8 a; u32 y<>; u8 b; };
+struct OptDynTail { u8 x<>; u64* o; u8 t; };
 '''
 
 
